@@ -100,6 +100,15 @@ class OriginFamily(ScenarioFamily):
         # concurrency is C01/C08's business; two async callers exercise shared pools
         ncall = 1 if (self.ex == "threads" or r.random() < 0.7) else 2
         callers = [{"ops": ops[i::ncall]} for i in range(ncall)]
+        if self.ex == "asyncio" and rc.random() < 0.3:
+            # another user of the same ssl context (a pool with the opposite http2 switch)
+            # keeps setting its own ALPN list on it while this pool connects
+            other = ["http/1.1"] if http2 else ["http/1.1", "h2"]
+            mops = []
+            for _ in range(rc.randint(4, 12)):
+                mops.append({"op": "sleep", "d": rc.choice([0.0, 0.0, 0.0003, 0.001, 0.004])})
+                mops.append({"op": "ctx_alpn", "protos": other})
+            callers.append({"start": rc.choice([0.0, 0.0, 0.0005]), "ops": mops})
         scn = {"seed": seed, "exec": self.ex, "pool": pool,
                "net": {"latency": r.choice(["zero", "fixed", "small"]), "seg": "whole",
                        "endpoints": eps},
